@@ -379,7 +379,9 @@ def madvr_cases(ctx, rng, work):
             a += ["-p", popt]
         if lpopt is not None:
             a += ["--long-play-mode", "true" if lpopt else "false"]
-        rc, so, se = clirun.run(a)
+        # no backtrace, whatever the caller's environment says: the known-finding matcher looks for the panic site in the
+        # last 300 bytes of stderr
+        rc, so, se = clirun.run(a, env={"RUST_BACKTRACE": "0"})
         ctx.evaluations += 1
         ctx.count("madvr kind=%s" % kind)
         ctx.count("madvr version=%d flags=%d%s" % (spec["version"], spec["flags"], " custom" if custom else ""))
@@ -489,8 +491,10 @@ def madvr_cases(ctx, rng, work):
 
 def hdr10plus_malformed_cases(ctx, rng, work):
     """HDR10+ JSON whose summary arrays do not fit the frames (empty / decreasing `SceneFirstFrameIndex`, too few
-    `SceneFrameNumbers`, a first frame without a peak value, scene lengths not adding up): the real CLI vs the model;
-    direct oracle: no crash, and an error when the scene lengths do not add up to the frame count"""
+    `SceneFrameNumbers`, a first frame without a peak value, scene lengths not adding up): the real CLI vs the model
+    (Model/GenSources.lean hdr10plusConfig: `.error` in all these cases since /repo 3502e27, never `.panic`);
+    direct oracle: an error exit with a message — neither a crash nor success — for every summary that does not fit the
+    frames and when the scene lengths do not add up to the frame count"""
     ncase = 16 if ctx.tier == "quick" else 200
     mlines = []
     for i in range(ncase):
@@ -535,7 +539,8 @@ def hdr10plus_malformed_cases(ctx, rng, work):
         cp = os.path.join(d, "cfg.json")
         json.dump(cfg, open(cp, "w"))
         outp = os.path.join(d, "out.bin")
-        rc, so, se = clirun.run(["generate", "-j", cp, "--hdr10plus-json", hp, "--hdr10plus-peak-source", src, "-o", outp])
+        rc, so, se = clirun.run(["generate", "-j", cp, "--hdr10plus-json", hp, "--hdr10plus-peak-source", src, "-o", outp],
+                                env={"RUST_BACKTRACE": "0"})
         ctx.evaluations += 1
         ctx.count("hdr10plus malformed kind=%s" % kind)
         set_ = se[-300:].decode(errors="replace")
@@ -545,6 +550,14 @@ def hdr10plus_malformed_cases(ctx, rng, work):
             ctx.oracle_fail(dict(case, observed="exit %s %s" % (rc, set_), expected="exit 0 or an error message", shape="crash"))
         if kind == "bad-sum" and rc == 0:
             ctx.oracle_fail(dict(case, observed="exit 0", expected="an error: scene lengths do not add up to the frame count", shape="malformed-accepted"))
+        # summaries that do not fit the frames: an error message (these were panics before /repo 3502e27)
+        unfit = kind in ("empty-firsts", "decreasing", "short-lengths") or (
+            kind == "no-peak" and (src in ("histogram", "histogram99", "max-scl-luminance") or fm["MaxScl"] == []))
+        if unfit:
+            ctx.count("hdr10plus malformed: summary does not fit, error expected")
+            if rc == 0 or (rc == 1 and b"Error" not in se):
+                ctx.oracle_fail(dict(case, observed="exit %s %s" % (rc, set_), expected="exit 1 with an error message (%s)" % kind,
+                                     shape="malformed-accepted" if rc == 0 else "error-without-message"))
         mlines.append(("c10.gensrc hdr10plus %s - - %s" % (compact, madvrgen.hdr10plus_source(hj, src)), impl_answer(rc, outp), set_))
     compare_with_model(ctx, "generate --hdr10plus-json (malformed)", mlines)
 
